@@ -83,6 +83,22 @@ def replay(rec, expected):
             st['rows'] = rows
             st['execs'] = {a: dict(v) for a, v in execs.items()}
             out['steps'].append(st)
+        # what the user is told: list-evolutions must list exactly the recorded rows
+        if out['steps'] and installed:
+            ls = project.run({'action': 'command', 'name': 'list-evolutions'})
+            listed = {a: {} for a in APP}
+            cur = None
+            for line in (ls.get('stdout') or '').splitlines():
+                if line.startswith('Applied evolutions for '):
+                    name = line.split("'")[1]
+                    cur = [k for k, v in APP.items() if v == name]
+                    cur = cur[0] if cur else None
+                elif line.startswith('    ') and cur:
+                    lab = line.strip()
+                    if lab.startswith('e') and lab[1:].isdigit():
+                        listed[cur][int(lab[1:])] = listed[cur].get(int(lab[1:]), 0) + 1
+            out['listed'] = listed
+            out['list_outcome'] = ls['outcome']
         return out
     finally:
         project.destroy()
